@@ -29,6 +29,9 @@ KW_PROSE = {
     "start-Returns-word": "Returns the computed value when it is ready.",
     "start-Parameters-word": "Parameters given here are forwarded.",
     "mid-:param": "The role :param is used below in the field list.",
+    # the same words in lower case are ordinary prose for every style (the section tokens are case-sensitive)
+    "lower-kwargs:": "Extra kwargs: forwarded to the backend unchanged.",
+    "lower-returns:": "On success it returns: nothing of interest.",
 }
 FOOTERS = ["Notes about usage.", ">>> f(1, 2)", "'x'", "Example follows below", "    indented example line", "References are listed elsewhere",
            "Example:", "Usage:", "See also:", "Example::", "Caveat: slow on big inputs"]
